@@ -180,7 +180,7 @@ func sameVars(a, b []interface{}) bool {
 
 type stats struct {
 	programs, compared, bothNothing, unconvertible, dryWriteTx, realErr, dryErr, sampled int64
-	reads, writes                                                                        int64
+	reads, writes, multi, multiRealStmts, classifiedPanics, bothError                    int64
 }
 
 func tags(p *pg.Prog) []string {
@@ -209,11 +209,20 @@ func check(run *mc.Run, w *worker, p *pg.Prog, st *stats, samples *mc.Samples, o
 	} else {
 		atomic.AddInt64(&st.reads, 1)
 	}
+	if os.Getenv("VERIF_C19_TRACE") != "" {
+		fmt.Fprintln(os.Stderr, "TRACE", p.String())
+	}
 	var rs [4]runResult
 	for m := modeSession; m <= modeReal; m++ {
 		rs[m] = w.run(p, m)
 	}
-	if p.Fin.Write {
+	if rs[modeReal].panicMsg != "" || rs[modeReal].leak != "" || rs[modeSession].leak != "" || rs[modeConfig].leak != "" {
+		// a panic inside gorm leaves a transaction / connection behind: continue on fresh handles
+		w.a.Close()
+		w.b.Close()
+		nw := newWorker()
+		w.a, w.b = nw.a, nw.b
+	} else if p.Fin.Write {
 		w.reseed()
 	}
 	if verbose {
@@ -243,22 +252,48 @@ func check(run *mc.Run, w *worker, p *pg.Prog, st *stats, samples *mc.Samples, o
 		if len(r.stmts) > 0 {
 			add("dryrun-sent-statement: %s put %d statement(s) into the driver log, first: %s %q", modeName[m], len(r.stmts), r.stmts[0].kind, r.stmts[0].text)
 		}
-		if r.txEvents > 0 && (m == modeToSQL || !p.Fin.Write) {
+		if r.txEvents > 0 && !p.Fin.ExplicitTx && (m == modeToSQL || !p.Fin.Write) {
 			add("dryrun-driver-call: %s made %d transaction call(s) to the driver (%s)", modeName[m], r.txEvents, strings.Join(r.events, "; "))
 		}
 	}
-	if rs[modeReal].panicMsg != "" {
-		add("panic: real run: %s", rs[modeReal].panicMsg)
-	}
-	if rs[modeReal].leak != "" {
-		add("leak: real run: %s", rs[modeReal].leak)
+	if rs[modeReal].panicMsg != "" && p.ReturningIntoNoScanDest() {
+		// classified: gorm cannot scan RETURNING rows into this destination and
+		// panics after the statement was sent (and leaves its transaction open)
+		atomic.AddInt64(&st.classifiedPanics, 1)
+	} else {
+		if rs[modeReal].panicMsg != "" {
+			add("panic: real run: %s", rs[modeReal].panicMsg)
+		}
+		if rs[modeReal].leak != "" {
+			add("leak: real run: %s", rs[modeReal].leak)
+		}
 	}
 	if p.Fin.Write && rs[modeSession].txEvents > 0 {
 		atomic.AddInt64(&st.dryWriteTx, 1)
 	}
 
-	// (b) the three DryRun modes expose the same statement
 	ref := rs[modeSession]
+	real := rs[modeReal]
+	if p.Fin.Multi {
+		// several main statements / nothing exposed on the returned handle:
+		// only the "sends nothing" half applies
+		atomic.AddInt64(&st.multi, 1)
+		if len(real.stmts) > 0 {
+			atomic.AddInt64(&st.multiRealStmts, 1)
+		}
+		if len(problems) > 0 {
+			report(run, p, problems, ref, real)
+			return
+		}
+		outcome := "multi stmts=" + fmt.Sprint(len(real.stmts))
+		if _, dup := w.outcms[outcome]; !dup {
+			w.outcms[outcome] = struct{}{}
+			outcomes.Add(outcome)
+		}
+		return
+	}
+
+	// (b) the three DryRun modes expose the same statement
 	for m := modeConfig; m <= modeToSQL; m++ {
 		if rs[m].text != ref.text {
 			add("dryrun-modes-differ: %s exposes %q, %s exposes %q", modeName[modeSession], ref.text, modeName[m], rs[m].text)
@@ -271,20 +306,23 @@ func check(run *mc.Run, w *worker, p *pg.Prog, st *stats, samples *mc.Samples, o
 	}
 
 	// (c) the real run sends exactly the exposed statement
-	real := rs[modeReal]
 	dryErr := ref.err
 	if errors.Is(dryErr, gorm.ErrDryRunModeUnsupported) {
 		dryErr = nil // Rows()/Scan() cannot return rows in DryRun mode; the statement is still exposed
 	}
 	outcome := ""
 	switch {
-	case ref.text == "" || dryErr != nil:
-		// nothing was built, or building failed: the real run must not send anything either
+	case ref.text == "":
+		// nothing was built: the real run must not succeed in sending something
 		atomic.AddInt64(&st.dryErr, 1)
-		outcome = "dry-error"
+		outcome = "nothing-built"
 		if len(real.stmts) > 0 && real.err == nil {
-			add("real-sent-unexposed: the DryRun run failed (%v) / exposed nothing, the real run succeeded and sent %q", ref.err, real.stmts[0].text)
+			add("real-sent-unexposed: the DryRun run exposed nothing (err=%v), the real run succeeded and sent %q", ref.err, real.stmts[0].text)
 		}
+	case len(real.stmts) == 0 && dryErr != nil && real.err != nil:
+		// the operation fails in both modes before anything is sent
+		atomic.AddInt64(&st.bothError, 1)
+		outcome = "both-error"
 	default:
 		want, cerr := convert(ref.vars)
 		if cerr != nil {
@@ -327,13 +365,7 @@ func check(run *mc.Run, w *worker, p *pg.Prog, st *stats, samples *mc.Samples, o
 	}
 
 	if len(problems) > 0 {
-		kind := problems[0]
-		if i := strings.IndexByte(kind, ':'); i > 0 {
-			kind = kind[:i]
-		}
-		msg := kind + "\n" + p.String() + "\n" + strings.Join(problems, "\n") +
-			fmt.Sprintf("\ndry SQL:  %s\ndry Vars: %s\ndry err=%v real err=%v\nreal events:\n  %s", ref.text, showList(ref.vars), ref.err, real.err, strings.Join(real.events, "\n  "))
-		run.Violation(tags(p), msg, p.FullCase())
+		report(run, p, problems, ref, real)
 		return
 	}
 	if _, dup := w.outcms[outcome]; !dup {
@@ -344,6 +376,23 @@ func check(run *mc.Run, w *worker, p *pg.Prog, st *stats, samples *mc.Samples, o
 		atomic.AddInt64(&st.sampled, 1)
 		samples.Add(map[string]string{"program": p.String(), "sql": ref.text, "real_first_statement": fmt.Sprint(real.events)})
 	}
+}
+
+func report(run *mc.Run, p *pg.Prog, problems []string, ref, real runResult) {
+	kind := problems[0]
+	if i := strings.IndexByte(kind, ':'); i > 0 {
+		kind = kind[:i]
+	}
+	msg := kind + "\n" + p.String() + "\n" + strings.Join(problems, "\n") +
+		fmt.Sprintf("\ndry SQL:  %s\ndry Vars: %s\ndry err=%v real err=%v\nreal events:\n  %s", ref.text, showList(ref.vars), ref.err, real.err, strings.Join(real.events, "\n  "))
+	if os.Getenv("VERIF_C19_LIST") != "" {
+		var ops []string
+		for _, o := range p.Ops {
+			ops = append(ops, o.Label)
+		}
+		fmt.Fprintf(os.Stderr, "LIST %s | %s | %s | %s\n", kind, strings.Join(ops, " . "), p.Fin.Label, strings.SplitN(problems[0], "\n", 2)[0])
+	}
+	run.Violation(tags(p), msg, p.FullCase())
 }
 
 func main() {
@@ -398,15 +447,15 @@ func main() {
 	all, core := pg.OpsFor(false, false), pg.OpsFor(true, false)
 	var plan string
 	if !thorough {
-		addItems(pg.Shapes(both, pg.Seqs(all, 0, 1), pg.FinsFor(false)), 1, pg.PathClasses)
-		addItems(pg.Shapes(both, pg.Seqs(all, 2, 2), pg.FinsFor(true)), 0, nil)
-		plan = fmt.Sprintf("<=1 call over %d calls x %d finishers x 2 models with <=1 slot deviating over %d path classes; 2 calls x %d representative finishers x 2 models with default classes", len(all), len(pg.Fins), len(pg.PathClasses), len(pg.FinsFor(true)))
+		addItems(pg.Shapes(both, pg.Seqs(all, 0, 1), pg.FinsFor(false, true)), 1, pg.PathClasses)
+		addItems(pg.Shapes(both, pg.Seqs(all, 2, 2), pg.FinsFor(true, true)), 0, nil)
+		plan = fmt.Sprintf("<=1 call over %d calls x %d finishers x 2 models with <=1 slot deviating over %d path classes; 2 calls x %d representative finishers x 2 models with default classes", len(all), len(pg.FinsFor(false, true)), len(pg.PathClasses), len(pg.FinsFor(true, true)))
 	} else {
-		addItems(pg.Shapes(both, pg.Seqs(all, 0, 1), pg.FinsFor(false)), 1, nil)
-		addItems(pg.Shapes(both, pg.Seqs(all, 2, 2), pg.FinsFor(false)), 0, nil)
-		addItems(pg.Shapes(both, pg.Seqs(all, 2, 2), pg.FinsFor(true)), 1, pg.PathClasses)
-		addItems(pg.Shapes([]int{pg.ModelS}, pg.Seqs(core, 3, 3), pg.FinsFor(true)), 0, nil)
-		plan = fmt.Sprintf("<=1 call over %d calls x %d finishers x 2 models with <=1 slot deviating over all %d classes; 2 calls x all finishers x 2 models with default classes and x %d representative finishers with <=1 slot deviating over %d path classes; 3 calls over the reduced alphabet of %d calls x representative finishers x model S", len(all), len(pg.Fins), int(pg.NumClasses), len(pg.FinsFor(true)), len(pg.PathClasses), len(core))
+		addItems(pg.Shapes(both, pg.Seqs(all, 0, 1), pg.FinsFor(false, true)), 1, nil)
+		addItems(pg.Shapes(both, pg.Seqs(all, 2, 2), pg.FinsFor(false, true)), 0, nil)
+		addItems(pg.Shapes(both, pg.Seqs(all, 2, 2), pg.FinsFor(true, true)), 1, pg.PathClasses)
+		addItems(pg.Shapes([]int{pg.ModelS}, pg.Seqs(core, 3, 3), pg.FinsFor(true, true)), 0, nil)
+		plan = fmt.Sprintf("<=1 call over %d calls x %d finishers x 2 models with <=1 slot deviating over all %d classes; 2 calls x all finishers x 2 models with default classes and x %d representative finishers with <=1 slot deviating over %d path classes; 3 calls over the reduced alphabet of %d calls x representative finishers x model S", len(all), len(pg.FinsFor(false, true)), int(pg.NumClasses), len(pg.FinsFor(true, true)), len(pg.PathClasses), len(core))
 	}
 
 	st := &stats{}
@@ -462,10 +511,11 @@ func main() {
 			run.HarnessError("vacuous: only %d distinct statement texts compared", texts.Len())
 		}
 	}
-	run.Assume("programs of C01 (package proggram): records without nested association values; Save / FirstOrCreate (which issue more than one main statement) are outside the alphabet")
+	run.Assume("programs of package proggram: records without nested association values; for finishers with several main statements or none exposed on the returned handle (CreateInBatches, CreateBatchSize, FirstOrCreate, FindInBatches, Transaction / Begin blocks) only the sends-nothing half is checked; a Transaction/Begin block requested by the program itself may BEGIN/COMMIT in every mode")
 	run.Assume("Update/Delete run with AllowGlobalUpdate so that a chain without WHERE is sent instead of being rejected; the rejection itself is C09")
 	run.Assume("'values after conversion' = database/sql's driver.DefaultParameterConverter (the recording driver defines no converter of its own); a value it refuses never reaches the driver, which is checked instead of the equality")
-	run.Assume("when building the statement fails in DryRun mode (or nothing is built) only 'the real run does not succeed in sending something' is checked")
+	run.Assume("when nothing is built in DryRun mode only 'the real run does not succeed in sending something' is checked; an error set after the statement was exposed (e.g. FirstOrInit assigning condition values) does not suspend the comparison")
+	run.Assume("an explicit RETURNING call in front of a finisher whose destination cannot receive rows ([]map, batch sub-slice, map update without model) makes gorm's Scan panic in the REAL run on the unchanged tree; that panic (and the transaction it leaves open) is classified by this input-side predicate and not a C19 violation — the DryRun halves and the first-statement comparison are still checked")
 	run.Finish(map[string]interface{}{
 		"evaluations":         st.programs,
 		"distinct_nontrivial": texts.Len(),
@@ -475,15 +525,19 @@ func main() {
 		"shapes_total":        len(items),
 		"shapes_done":         shapesDone,
 		"gorm_runs":           st.programs * 4,
-		"programs_real_statement_equal_to_dryrun":      st.compared,
-		"programs_real_statement_equal_but_db_error":   st.realErr,
-		"programs_dryrun_build_error_or_nothing_built": st.dryErr,
-		"programs_value_refused_by_database_sql":       st.unconvertible,
-		"dryrun_writes_with_empty_transaction":         st.dryWriteTx,
-		"read_programs":                                st.reads,
-		"write_programs":                               st.writes,
-		"distinct_outcomes":                            outcomes.Len(),
-		"stopped_by_deadline":                          timedOut != 0,
-		"stopped_after_too_many_violations":            tooMany != 0,
+		"programs_real_statement_equal_to_dryrun":                           st.compared,
+		"programs_real_statement_equal_but_db_error":                        st.realErr,
+		"programs_dryrun_build_error_or_nothing_built":                      st.dryErr,
+		"programs_value_refused_by_database_sql":                            st.unconvertible,
+		"dryrun_writes_with_empty_transaction":                              st.dryWriteTx,
+		"real_run_panics_classified_returning_into_unscannable_destination": st.classifiedPanics,
+		"multi_statement_programs_checked_for_sending_nothing":              st.multi,
+		"multi_statement_programs_whose_real_run_sent_statements":           st.multiRealStmts,
+		"programs_failing_before_sending_in_both_modes":                     st.bothError,
+		"read_programs":                     st.reads,
+		"write_programs":                    st.writes,
+		"distinct_outcomes":                 outcomes.Len(),
+		"stopped_by_deadline":               timedOut != 0,
+		"stopped_after_too_many_violations": tooMany != 0,
 	})
 }
